@@ -897,7 +897,7 @@ Qed.
 Lemma do_let_R args : R0 (do_let rec1 args) (do_let rec2 args).
 Proof.
   unfold do_let. apply R0_bind; [r0|]. intros [varlist rest].
-  destruct (negb (consp rest)); [r0|].
+  destruct (negb (listp rest)); [r0|].
   intros s r s' H Hr. unfold bind at 1 in H. unfold bind at 1.
   destruct (let_bind rec1 (items varlist) [] s) as [r1 s1] eqn:E1.
   assert (r1 <> Fuel) as Hr1 by (intros ->; inv_pair H; congruence).
